@@ -90,3 +90,64 @@ package responseassembler
 //@   ensures forall j int :: 0 <= j && j < len(links) ==> rc(trk(prs, requestID), links[j]) >= 1
 //@   loop 1 invariant invPLT(prs) && linkTracker == old(trk(prs, requestID)) && trk(prs, requestID) == old(trk(prs, requestID))
 //@   loop 1 invariant forall j int :: 0 <= j && j < idx1 ==> rc(linkTracker, links[j]) >= 1
+
+//@ -- ============================ C15: what a transaction reserves is what it adds to the message builder ============================
+//@ -- interface-level contract of a response operation: build() raises the builder's block bytes by exactly size().
+//@ -- (dynamic dispatch: assumed for the interface; every implementation is verified against the same rule below)
+//@ ghost opSizeOf map[ref]int
+//@ func responseOperation.size
+//@   assumed
+//@   modifies nothing
+//@   ensures result == opSizeOf[self] && result >= 0
+//@ func responseOperation.build
+//@   assumed
+//@   params builder
+//@   modifies builder.Builder.blkSize, alloc
+//@   ensures builder.Builder.blkSize == old(builder.Builder.blkSize) + opSizeOf[self]
+
+//@ func blockOperation.size
+//@   modifies nothing
+//@   ensures result == ite(bo.sendBlock, len(bo.data), 0)
+//@ func blockOperation.Block
+//@   modifies nothing
+//@ func blockOperation.build
+//@   lenient
+//@   requires builder != nil && builder.Builder != nil && builder.Builder.outgoingBlocks != nil && bo.link != nil && dyntype(bo.link) == typetag("cidlink.Link")
+//@   modifies builder.Builder.blkSize, alloc, allmaps(builder.Builder.outgoingBlocks), allmaps(builder.Builder.outgoingResponses), allmaps(builder.blockData)
+//@   ensures builder.Builder.blkSize == old(builder.Builder.blkSize) + ite(bo.sendBlock, len(bo.data), 0)
+//@ func statusOperation.size
+//@   modifies nothing
+//@   ensures result == 0
+//@ func statusOperation.build
+//@   lenient
+//@   safety off
+//@   modifies alloc, allmaps(builder.Builder.completedResponses), allmaps(builder.Builder.outgoingResponses)
+//@   ensures builder.Builder.blkSize == old(builder.Builder.blkSize)
+//@ -- extension data is not counted as block bytes, so it must not be reserved either
+//@ func extensionOperation.size
+//@   lenient
+//@   modifies nothing
+//@   ensures result == 0
+//@ func extensionOperation.build
+//@   lenient
+//@   safety off
+//@   modifies alloc, allmaps(builder.Builder.extensions), allmaps(builder.Builder.outgoingResponses)
+//@   ensures builder.Builder.blkSize == old(builder.Builder.blkSize)
+
+//@ -- the transaction reserves exactly the sum of its operations' sizes ...
+//@ func responseStream.execute
+//@   lenient
+//@   safety off
+//@   modifies alloc
+//@   callsite PeerMessageHandler.AllocateAndBuildMessage: assert $blkSize == SeqSum(operations, len(operations), opSizeOf) && $p == rs.p
+//@   loop 1 invariant size == SeqSum(operations, idx1, opSizeOf) && size >= 0
+//@   use seqsum_step(operations, idx1, opSizeOf)
+//@ -- ... and the build callback adds exactly that to the builder it is given
+//@ func responseStream.execute.func1
+//@   lenient
+//@   safety off
+//@   requires builder != nil && builder.Builder != nil
+//@   modifies builder.Builder.blkSize, alloc, allmaps(builder.responseStreams), allmaps(builder.subscribers)
+//@   ensures builder.Builder.blkSize == old(builder.Builder.blkSize) + SeqSum(operations, len(operations), opSizeOf)
+//@   loop 1 invariant builder.Builder.blkSize == old(builder.Builder.blkSize) + SeqSum(operations, idx1, opSizeOf)
+//@   use seqsum_step(operations, idx1, opSizeOf)
